@@ -123,6 +123,9 @@ def _flags(case):
 
 
 def run_case(case):
+    if "locale" in case:
+        v = _locale_case(case["locale"])
+        return [{"case": case, "what": v[0], "detail": v[1]}] if v else []
     files = project(case["nfiles"], case["fmt"], case.get("mode"))
     base = _run(files, None, second=False, flags=_flags(case))
     new_ast = {}
@@ -196,14 +199,57 @@ def explore(tier, seed, runner):
                         cases.append({"nfiles": 3, "fmt": t["record"]["fmt"], "target": [a, b2]})
         for i in range(0, len(cases), 6):
             tasks.append({"cases": cases[i : i + 6], "new_ast": new_ast, "new_bytes": new_bytes})
+    tasks += [{"locale": f} for f in ("black", "cmd")]
     for t, r in zip(tasks, runner(tasks)):
-        t = {"cases": t["cases"]}
+        t = {"cases": t["cases"]} if "cases" in t else t
         done.append((t, r))
     return done
 
 
+def _locale_case(fmt):
+    """No injected fault, but an environment in which writing text with the default encoding fails: a cold interpreter whose
+    locale encoding is ASCII, files that hold non-ASCII text.  The write step must not leave a truncated file."""
+    from ..drivers import plugin
+
+    files = project(3, fmt)
+    for k in list(files):
+        if k.endswith(".py"):
+            files[k] = "# caf\xe9 \u20ac \U0001f40d\n" + files[k].replace("'b' == snapshot('x')", "'\xfc\u20ac' == snapshot('x')")
+    d = plugin.mk_project(files)
+    try:
+        r = plugin.cold_session(d, ["--inline-snapshot=create,fix"], env={"LC_ALL": "C", "LANG": "C", "PYTHONUTF8": "0", "PYTHONCOERCECLOCALE": "0", "PYTHONIOENCODING": "utf-8"})
+        s1 = plugin.listing(d)
+        r2 = plugin.cold_session(d, [])
+        s2 = plugin.listing(d)
+    finally:
+        plugin.cleanup()
+    for label, st in (("after the session in the ASCII locale:", s1), ("after the following plain session:", s2)):
+        for name, old in files.items():
+            if not name.endswith(".py"):
+                continue
+            cur = st.get(name)
+            if cur == old.encode("utf-8"):
+                return ("approved-changes-not-written", "%s %s unchanged | %s" % (label, name, r["out"][-300:]))
+            try:
+                ast.parse(cur.decode("utf-8"))
+            except Exception as e:  # noqa
+                return ("half-written-test-file", "%s %s is neither old nor parsable UTF-8 (%s): %r | %s" % (label, name, type(e).__name__, cur[:120], r["out"][-300:]))
+    if r2["rc"] != 0:
+        return ("plain-session-fails-afterwards", r2["out"][-400:])
+    return None
+
+
 def run_task(task):
     out = {"n": 0, "nontrivial": [], "outcomes": {}, "violations": [], "samples": []}
+    if "locale" in task:
+        v = _locale_case(task["locale"])
+        out["n"] = 1
+        if v:
+            out["violations"].append({"case": {"locale": task["locale"]}, "what": v[0], "detail": v[1]})
+        else:
+            out["nontrivial"].append("locale:" + task["locale"])
+        out["outcomes"]["viol:" + v[0] if v else "ok:ascii-locale:" + task["locale"]] = 1
+        return out
     if "record" in task:
         c = task["record"]
         files = project(c["nfiles"], c["fmt"], c.get("mode"))
